@@ -104,6 +104,9 @@ func ws(rng *rand.Rand) string {
 
 func genValidArray(rng *rand.Rand, r int, allowBig bool) string {
 	n := weighted(rng, 10, 20, 20, 15, 10, 10, 5, 5)
+	if rng.Intn(60) == 0 { // a long list: past 64, 100, 128 entries
+		n = pick(rng, 64, 65, 66, 100, 101, 129, 300)
+	}
 	var b strings.Builder
 	b.WriteString(ws(rng) + "[" + ws(rng))
 	for i := 0; i < n; i++ {
